@@ -58,6 +58,16 @@ Theorem nv_strict : forall T nm c d ch now d' v, good_ver v -> NoDup (keys d) ->
 Proof. exact nv_strict_lemma. Qed.
 Print Assumptions nv_strict.
 
+(* ... and no clock reading can make the operation fail: a versionable, unrevoked object whose version
+   time is an aware timestamp gets a new version for every `now` *)
+Theorem nv_succeeds : forall T nm c d ch v locked l o, check_versionable T c d = Ok v ->
+  revoked_flag d = false -> sco_locked T d = Ok locked ->
+  existsb (fun k => has_key k ch) (t_unmod T ++ locked) = false -> plookup kmod ch = None ->
+  parse_ts nm v (version_time d) = Ok (l, Some o) ->
+  forall now, exists d', new_version T nm c d ch now = Ok d'.
+Proof. exact nv_succeeds_lemma. Qed.
+Print Assumptions nv_succeeds.
+
 (* a caller-supplied modified time is accepted only if strictly later after serialization, and is applied *)
 Theorem supplied_modified_strict : forall T nm c d ch now d' v s, good_ver v -> NoDup (keys d) -> NoDup (keys ch) ->
   check_versionable T c d = Ok v -> plookup kmod ch = Some s -> new_version T nm c d ch now = Ok d' ->
